@@ -2829,6 +2829,10 @@ fire("c17-parsed-list-hash-memoized", ["C17"], "pymbolic/parser.py",
      "    def __hash__(self) -> int:  # type: ignore[override]\n        result = hash(type(self).__name__)",
      "    @pytools.memoize_method\n    def __hash__(self) -> int:  # type: ignore[override]\n        result = hash(type(self).__name__)",
      "S/pickle/memoized-hash/FinalizedList")
+fire("c15-revert-solver-composite-parameters", ["C15"], "pymbolic/algorithm.py",
+     "        if inner_dep_map(param) & unknowns_set:\n            raise RuntimeError(",
+     "        if inner_dep_map(param) & unknowns_set:\n            warn(",
+     "P/solve_affine/composite-parameters-free-of-unknowns")
 fire("c19-fft-twiddle-ignores-sign", ["C19"], "pymbolic/algorithm.py",
      "                    sign*-2j*pi*n1/(N1*N2)",
      "                    -2j*pi*n1/(N1*N2)",
